@@ -38,11 +38,15 @@ Proof.
   destruct r; simpl; auto.
 Qed.
 
+(* what a start event adds to testsRun: the countTestCases() of the started test *)
+Definition count_of (t : nat) : nat := match nth_error (tests w) t with Some b => 1 + (t_count b - 1) | None => 1 end.
+Definition nrun_ev (e : ev) : nat := match e with EStart t => count_of t | _ => 0 end.
+
 Definition rs_ledger (s : rstate) : Prop :=
   total nfail_ev (rs_ev s) = length (rs_fail s) + length (rs_us s) /\
   total nerr_ev (rs_ev s) = length (rs_err s) /\
   total nskip_ev (rs_ev s) = rs_skip s /\
-  total nstart_ev (rs_ev s) = rs_run s.
+  total nrun_ev (rs_ev s) = rs_run s.
 
 Lemma flat_counts l t ps :
   total nfail_ev (flat_map (p_ev w l t) ps) = length (flat_map (p_fail t) ps) + length (flat_map (p_us t) ps) /\
@@ -55,18 +59,28 @@ Proof.
   rewrite !total_app, !app_length, A1, A2, A3, A4, B1, B2, B3, B4. repeat split; lia.
 Qed.
 
-Lemma run_test_ledger l t b s : rs_ledger s -> rs_ledger (run_test w o l t b s).
+Lemma flat_run l t ps : total nrun_ev (flat_map (p_ev w l t) ps) = count_of t * fold_right (fun p a => p_run p + a) 0 ps.
 Proof.
-  intros [H1 [H2 [H3 H4]]]. unfold run_test, rs_ledger.
-  destruct (fold_effect w o l t (proto b) s) as [E1 [E2 [E3 [E4 [E5 [_ E7]]]]]].
-  destruct (flat_counts l t (proto b)) as [C1 [C2 [C3 C4]]].
-  rewrite E1, E2, E3, E4, E5, E7, !total_app, !app_length, C1, C2, C3, C4, H1, H2, H3, H4. repeat split; lia.
+  induction ps as [|p ps IH]; simpl; [lia|]. rewrite total_app, IH.
+  assert (H : total nrun_ev (p_ev w l t p) = count_of t * p_run p).
+  { destruct p as [| |ph k|r k|]; simpl; rewrite ?total_app, ?hooks_up_quiet, ?hooks_down_quiet by reflexivity; simpl; lia. }
+  rewrite H. lia.
 Qed.
 
-Lemma run_seq_ledger l : forall ts s, rs_ledger s -> rs_ledger (run_seq w o l ts s).
+Lemma run_test_ledger l t b s : nth_error (tests w) t = Some b -> rs_ledger s -> rs_ledger (run_test w o l t b s).
 Proof.
-  induction ts as [|[t b] ts IH]; intros s H; simpl; [exact H|].
-  destruct (rs_stop s); [exact H|]. apply IH, run_test_ledger, H.
+  intros Hn [H1 [H2 [H3 H4]]]. unfold rs_ledger.
+  destruct (run_test_effect w o l t b s) as [E1 [E2 [E3 [E4 [E5 [_ E7]]]]]].
+  destruct (flat_counts l t (proto b)) as [C1 [C2 [C3 _]]].
+  rewrite E1, E2, E3, E4, E5, E7, !total_app, !app_length, C1, C2, C3, flat_run, proto_runs_once, H1, H2, H3, H4.
+  unfold count_of. rewrite Hn. repeat split; lia.
+Qed.
+
+Lemma run_seq_ledger l : forall ts s, (forall t b, In (t, b) ts -> nth_error (tests w) t = Some b) ->
+  rs_ledger s -> rs_ledger (run_seq w o l ts s).
+Proof.
+  induction ts as [|[t b] ts IH]; intros s Hts H; simpl; [exact H|]. destruct (rs_stop s); [exact H|].
+  apply IH; [intros t' b' Hin; apply Hts; now right|]. apply run_test_ledger; [apply Hts; now left | exact H].
 Qed.
 
 Lemma rs_init_ledger : rs_ledger rs_init. Proof. repeat split. Qed.
@@ -141,7 +155,7 @@ Lemma repeat_loop_ledger : forall k l p, ps_ledger p -> ps_ledger (repeat_loop w
 Proof.
   induction k as [|k IH]; intros l p H; simpl; [exact H|].
   set (rs := run_seq w o l (tests_of w l) rs_init).
-  destruct (run_seq_ledger l (tests_of w l) rs_init rs_init_ledger) as [R1 [R2 [R3 R4]]]. fold rs in R1, R2, R3, R4.
+  destruct (run_seq_ledger l (tests_of w l) rs_init (fun t b H => proj1 (proj1 (tests_of_spec w l t b) H)) rs_init_ledger) as [R1 [R2 [R3 R4]]]. fold rs in R1, R2, R3, R4.
   destruct H as [H1 [H2 H3]].
   assert (Hstep : ps_ledger {| ps_setup := ps_setup p; ps_att_su := ps_att_su p; ps_att_td := ps_att_td p; ps_ran := rs_run rs;
                                ps_fail := ps_fail p ++ rs_fail rs ++ rs_us rs; ps_err := ps_err p ++ rs_err rs; ps_skip := ps_skip p + rs_skip rs;
